@@ -83,6 +83,37 @@ def joined(cases, ra, rp):
         yield c, {k: a[k] for k in OBS}, {k: p[k] for k in OBS}
 
 
+def huge_lengths(ctx, prop, bins):
+    """Length codes beyond 2^32 (16.9 MiB of 0xFF length bytes): LZ4Block!Decode says "more output than the destination
+    holds" for every destination of the grid, so both decoders must return an error (and touch nothing behind len(dst))."""
+    import subprocess
+    obs = {}
+    for name, b in bins:
+        p = subprocess.run([b, "blk-huge", "0", "1", "100", "70000", "1048576"], stdout=subprocess.PIPE, stderr=subprocess.PIPE, text=True, timeout=600, env=vlib.GOENV)
+        if p.returncode != 0:
+            obs[name] = {"crashed": {"stderr": p.stderr[-1500:]}}
+        else:
+            obs[name] = json.loads(p.stdout.strip().splitlines()[-1])
+        ctx.evaluations += 15
+    ctx.distinct += 15
+    for name, res in obs.items():
+        for case, r in sorted(res.items()):
+            bad = case == "crashed" or not r["err"] or r["panicked"] or not r["canary"] or r["n"] != 0
+            if prop == "C12" and not bad:
+                continue
+            if not bad:
+                continue
+            key = "%s:huge-length:%s:%s:%s" % (prop, name, case.split("/")[0],
+                                                "crash" if case == "crashed" else ("panic" if r["panicked"] else ("accepted" if not r["err"] else "memory")))
+            ctx.violation(key, "a block whose length code exceeds 2^32 is not refused: %s" % key, {"kind": "huge", "decoder": name, "case": case, "observed": r})
+    if prop == "C12" and all("crashed" not in v for v in obs.values()):
+        a, pz = obs["asm"], obs["portable"]
+        for case in a:
+            if (a[case]["err"], a[case]["n"]) != (pz[case]["err"], pz[case]["n"]):
+                ctx.violation("C12:huge-length:%s:differ" % case.split("/")[0], "assembly and portable decoders differ on a block with a length code beyond 2^32",
+                              {"kind": "huge", "case": case, "asm": a[case], "portable": pz[case]})
+
+
 def run(ctx, prop):
     q = ctx.tier == "quick"
     ctx.rule = ("gen: Gen_LZ4Block class product (literal-length x match-length x offset x dictionary-size x destination-size "
@@ -125,6 +156,8 @@ def run(ctx, prop):
     ctx.sample({"gen_case": {k: cases[7][k] for k in ("src", "dict", "dstLen", "kind", "params")},
                 "observed_asm": {k: ra[8][k] for k in ("err", "n", "stable")}})
     confirm(ctx, prop, bins, d, bad, "gen")
+
+    huge_lengths(ctx, prop, bins)
 
     # 3. a slice of the gen cases also goes through TLC trace validation (binding demonstration),
     #    and all seeded mutants do (TLC is their only oracle)
@@ -196,6 +229,14 @@ def replay(ctx, prop, path):
     rp_ = json.load(open(path))
     bins = (("asm", vlib.build_harness()), ("portable", vlib.build_harness(noasm=True)))
     d = vlib.scratch("rep")
+    if rp_.get("kind") == "huge":
+        sub = vlib.Ctx(ctx.prop, ctx.tier, ctx.seed)
+        huge_lengths(sub, prop, bins)
+        if sub.violations:
+            print("VIOLATION property=%s replay=%s" % (ctx.prop, path))
+            return 1
+        print("replay: deviation not observed")
+        return 0
     one = os.path.join(d, "one.ndjson")
     c = rp_["case"]
     vlib.write_ndjson(one, [c])
